@@ -58,7 +58,7 @@ pub struct JobOut {
     pub progress: String,
 }
 
-const SHM_SIZE: usize = 4096;
+const SHM_SIZE: usize = 65536;
 static mut SHM: *mut u8 = std::ptr::null_mut();
 
 /// Child side: record what is about to be executed, so that a crash can be
